@@ -8,7 +8,7 @@ import enum
 import itertools
 import z3
 
-from .sym import (isz, is_symint, is_symreal, is_symbool, zi, zb, simp, as_const, as_bool_const, fresh_name,
+from .sym import (Rat, isz, is_symint, is_symreal, is_symbool, zi, zb, simp, as_const, as_bool_const, fresh_name,
                   Elems, Gen, Seq, seq_eq, seq_concat, SymEnum, Obj, PyList, PyDict, PySet, ExcVal,
                   exc_isinstance, EXC_BASES)
 from .loader import FuncInfo, ClassInfo, ModuleInfo
@@ -420,6 +420,11 @@ class Interp:
 
     def assign(self, t, v, env, fr, ctx):
         if isinstance(t, ast.Name):
+            if is_symint(v) and _term_size(v, 40) >= 40:
+                # name a large integer term by a fresh variable (definitional equality): keeps later formulas small
+                nv = z3.Int(fresh_name("v_" + t.id))
+                ctx.fact(nv == v)
+                v = nv
             env[t.id] = v
         elif isinstance(t, (ast.Tuple, ast.List)):
             items = self.iterate(v, ctx)
@@ -816,6 +821,8 @@ class Interp:
             return False
         if isinstance(v, (int, float)):
             return v != 0
+        if isinstance(v, Rat):
+            return simp(zi(v.n) != 0)
         if isinstance(v, (str, bytes, tuple, list, dict, set, frozenset)):
             return len(v) > 0
         if isinstance(v, Seq):
@@ -855,12 +862,23 @@ class Interp:
             return self.add(a, b, ctx)
         if name == "Mult" and (isinstance(a, (str, bytes, Seq)) or isinstance(b, (str, bytes, Seq))):
             s, n = (a, b) if isinstance(a, (str, bytes, Seq)) else (b, a)
+            if isz(n) and ctx.concrete_int(n) is None:
+                # small case split on the repeat count
+                k = ctx.choose([zi(n) <= 0] + [zi(n) == i for i in range(1, 65)] + [zi(n) > 64])
+                if k == 65:
+                    raise Unsupported("sequence repeated a symbolic number (> 64) of times")
+                n = k
             n = self.need_concrete_int(n, ctx)
             s = Seq.of(s)
             out = Seq(s.kind, [])
             for _ in range(max(n, 0)):
                 out = seq_concat(out, s)
             return out
+        if isinstance(a, Rat) or isinstance(b, Rat) or (name == "Div" and (is_symint(a) or isinstance(a, int)) and
+                                                       not isinstance(a, bool) and _posint(b) is not None):
+            r = self.rat_binop(name, a, b, ctx)
+            if r is not NotImplemented:
+                return r
         if _numeric(a) and _numeric(b):
             real = is_symreal(a) or is_symreal(b) or isinstance(a, float) or isinstance(b, float)
             if real:
@@ -893,6 +911,36 @@ class Interp:
         if name == "BitOr" and (is_symbool(a) or is_symbool(b) or isinstance(a, bool) or isinstance(b, bool)):
             return simp(z3.Or(zb(a), zb(b)))
         raise Unsupported(f"binop {name} on {type(a).__name__}, {type(b).__name__}")
+
+    def rat_binop(self, name, a, b, ctx):
+        ctx.used_models.add("float: int / constant, divmod, int() and comparisons on such quotients are exact rational arithmetic")
+        def lift(x):
+            if isinstance(x, Rat):
+                return x
+            if isinstance(x, bool):
+                return Rat(int(x), 1)
+            if isinstance(x, int) or is_symint(x):
+                return Rat(x, 1)
+            if isinstance(x, float) and x == int(x):
+                return Rat(int(x), 1)
+            return None
+        if name == "Div":
+            d = _posint(b)
+            la = lift(a)
+            if d is None or la is None:
+                return NotImplemented
+            return Rat(la.n, la.d * d)
+        la, lb = lift(a), lift(b)
+        if la is None or lb is None:
+            return NotImplemented
+        if name in ("Add", "Sub"):
+            n1 = zi(la.n) * lb.d if lb.d != 1 else zi(la.n)
+            n2 = zi(lb.n) * la.d if la.d != 1 else zi(lb.n)
+            return Rat(simp(n1 + n2 if name == "Add" else n1 - n2), la.d * lb.d)
+        if name == "Mult":
+            if not isz(la.n) or not isz(lb.n):
+                return Rat(simp(zi(la.n) * zi(lb.n)), la.d * lb.d)
+        return NotImplemented
 
     def bitand(self, a, b, ctx):
         """bitwise and for non-negative ints: when one side is a concrete power of two, test the bit; else 16-bit BV"""
@@ -961,6 +1009,11 @@ class Interp:
             r = mm(self, a, "__cmp__", [name, b], {}, ctx)
             if r is not NotImplemented:
                 return r
+        if isinstance(a, Rat) or isinstance(b, Rat):
+            x, y = _ratpair(a, b)
+            if x is not None:
+                l, r = zi(x.n) * y.d, zi(y.n) * x.d
+                return simp({"Lt": l < r, "LtE": l <= r, "Gt": l > r, "GtE": l >= r}[name])
         if _numeric(a) and _numeric(b):
             if is_symreal(a) or is_symreal(b) or isinstance(a, float) or isinstance(b, float):
                 a, b = _toreal(a), _toreal(b)
@@ -1004,6 +1057,15 @@ class Interp:
             return f if isinstance(f, bool) else simp(f)
         if a is None or b is None:
             return a is b
+        if isinstance(a, Rat) or isinstance(b, Rat):
+            x, y = _ratpair(a, b)
+            if x is None:
+                if is_symreal(a) or is_symreal(b):
+                    ra = a.real() if isinstance(a, Rat) else _toreal(a)
+                    rb = b.real() if isinstance(b, Rat) else _toreal(b)
+                    return simp(ra == rb)
+                return False
+            return simp(zi(x.n) * y.d == zi(y.n) * x.d)
         if _numeric(a) and _numeric(b):
             if is_symbool(a) or is_symbool(b):
                 if (isinstance(a, bool) or is_symbool(a)) and (isinstance(b, bool) or is_symbool(b)):
@@ -1529,11 +1591,58 @@ def _concrete(v):
     return False
 
 
+def _term_size(t, limit):
+    n = 0
+    stack = [t]
+    seen = set()
+    while stack and n < limit:
+        x = stack.pop()
+        i = x.get_id()
+        if i in seen:
+            continue
+        seen.add(i)
+        n += 1
+        stack.extend(x.children())
+    return n
+
+
+def _posint(b):
+    if isinstance(b, bool):
+        return None
+    if isinstance(b, int) and b > 0:
+        return b
+    if isinstance(b, float) and b > 0 and b == int(b):
+        return int(b)
+    return None
+
+
 def _numeric(v):
-    return isinstance(v, (int, float, bool)) or is_symint(v) or is_symreal(v) or is_symbool(v)
+    return isinstance(v, (int, float, bool, Rat)) or is_symint(v) or is_symreal(v) or is_symbool(v)
+
+
+def _ratpair(a, b):
+    def lift(x):
+        if isinstance(x, Rat):
+            return x
+        if isinstance(x, bool):
+            return Rat(int(x), 1)
+        if isinstance(x, int) or is_symint(x):
+            return Rat(x, 1)
+        if isinstance(x, float):
+            from fractions import Fraction
+            f = Fraction(x).limit_denominator(10 ** 6)
+            if float(f) == x:
+                return Rat(f.numerator, f.denominator)
+        return None
+    x, y = lift(a), lift(b)
+    if x is None or y is None:
+        return None, None
+    return x, y
 
 
 def _toreal(v):
+    if isinstance(v, Rat):
+        return v.real()
     if isz(v):
         if z3.is_bool(v):
             return z3.ToReal(z3.If(v, 1, 0))
